@@ -12,13 +12,14 @@ TYPE_ID = {"dir": 1, "file": 2, "slink": 3, "blk": 4, "chr": 5, "fifo": 6, "sock
 
 class Node:
     def __init__(self, kind, mode=0o644, uid=0, gid=0, mtime=0, ext=False, xattrs=None, data=b"", frag=True, target=b"", rdev=0,
-                 nlink=None, entries=None, tag=None):
+                 nlink=None, entries=None, tag=None, index_every=None):
         self.kind, self.mode, self.uid, self.gid, self.mtime, self.ext = kind, mode, uid, gid, mtime, ext or bool(xattrs)
         self.xattrs = xattrs
         self.data, self.frag, self.target, self.rdev = data, frag, target, rdev
         self.nlink = nlink
         self.entries = entries if entries is not None else []   # list of (name bytes, Node, type override or None)
         self.tag = tag
+        self.index_every = index_every     # extended directories: a new header every k entries and an index entry per header after the first
         self.ino = None
         self.ref = None
         self.parent_ino = 0
@@ -152,7 +153,11 @@ def build(root, block_size=4096, export=False, mtime=0, comp_id=1, pad=4096, fla
     def inode_size(n):
         base = 16
         if n.kind == "dir":
-            return base + (24 if n.ext else 16)
+            extra = 0
+            if n.ext and n.index_every:
+                for k in range(n.index_every, len(n.entries), n.index_every):
+                    extra += 12 + len(n.entries[k][0])
+            return base + (24 if n.ext else 16) + extra
         if n.kind == "file":
             return base + (40 if n.ext else 16) + 4 * len(n.block_sizes)
         if n.kind == "slink":
@@ -180,7 +185,7 @@ def build(root, block_size=4096, export=False, mtime=0, comp_id=1, pad=4096, fla
         while i < len(ents):
             first = ents[i][1]
             run = []
-            while i < len(ents) and len(run) < 256:
+            while i < len(ents) and len(run) < (n.index_every if (n.ext and n.index_every) else 256):
                 name, c, t = ents[i]
                 if (c.ref >> 16) != (first.ref >> 16) or abs(c.ino - first.ino) > 32767:
                     break
@@ -213,9 +218,21 @@ def build(root, block_size=4096, export=False, mtime=0, comp_id=1, pad=4096, fla
                 it.buf += struct.pack("<IIHHI", blk, nl, n.dsize, off, n.parent_ino if n is not root else len(nodes) + 1)
                 n.fmap = {"dir_block": (p, 4), "nlink": (p + 4, 4), "dir_size": (p + 8, 2), "dir_offset": (p + 10, 2), "parent": (p + 12, 4)}
             else:
-                it.buf += struct.pack("<IIIIHHI", nl, n.dsize, blk, n.parent_ino if n is not root else len(nodes) + 1, 0, off, n.xidx)
+                idx_ents = []
+                if n.index_every:
+                    want = list(range(n.index_every, len(n.entries), n.index_every))
+                    if len(n.headers) != len(want) + 1:
+                        raise ValueError("directory index: headers were split by inode block/number distance, cannot lay out the index")
+                    for hpos, k in zip(n.headers[1:], want):
+                        idx_ents.append((hpos - n.dstart, dt.blockpos(hpos)[0], n.entries[k][0]))
+                it.buf += struct.pack("<IIIIHHI", nl, n.dsize, blk, n.parent_ino if n is not root else len(nodes) + 1, len(idx_ents), off, n.xidx)
                 n.fmap = {"nlink": (p, 4), "dir_size": (p + 4, 4), "dir_block": (p + 8, 4), "parent": (p + 12, 4), "index_count": (p + 16, 2),
                           "dir_offset": (p + 18, 2), "xattr_idx": (p + 20, 4)}
+                q = p + 24
+                for k, (ioff, iblk, iname) in enumerate(idx_ents):
+                    it.buf += struct.pack("<III", ioff, iblk, len(iname) - 1) + iname
+                    n.fmap.update({"idx%d.index" % k: (q, 4), "idx%d.start" % k: (q + 4, 4), "idx%d.name_size" % k: (q + 8, 4)})
+                    q += 12 + len(iname)
         elif n.kind == "file":
             nl = n.nlink if n.nlink is not None else 1
             if not ext:
